@@ -87,7 +87,8 @@ def run_shard(job):
             incomplete = True
         out.update(stats=eng.stats, violations=eng.violations, unknowns=eng.unknowns, samples=eng.samples[:2],
                    reached=sorted(eng.reached), funcs=sorted(funcs), incomplete=incomplete,
-                   known_seen=eng.known_seen, extra=getattr(eng, "extra", None), label_counts=eng.label_counts)
+                   known_seen=eng.known_seen, extra=getattr(eng, "extra", None), label_counts=eng.label_counts,
+                   dead_options=sorted(f"{n}={v}" for (n, k), v in eng.choice_offered.items() if (n, k) not in eng.choice_seen) if not incomplete else [])
     except BaseException as ex:  # noqa: BLE001
         out["error"] = "".join(traceback.format_exception(type(ex), ex, ex.__traceback__))[-3000:]
     out["wall"] = time.time() - t0
@@ -266,6 +267,12 @@ def main(argv=None):
         code = EXIT_HARNESS
     # ---- vacuity witnesses
     want = set(H.witnesses(args.tier)) if hasattr(H, "witnesses") else set()
+    dead = [(r["params"], r.get("dead_options")) for r in results if r.get("dead_options") and not r.get("timeout") and not r.get("stats", {}).get("stopped_early")]
+    for params, opts in dead[:5]:
+        # an option of a structural choice that no feasible path ever took: the cases it stands for are NOT covered (vacuity)
+        lines.append(f"HARNESS-ERROR property={pid} vacuity: choice options without any feasible path {opts} shard={json.dumps(params)}")
+    if dead and not errors and not violations:
+        code = EXIT_HARNESS
     missing = sorted(want - reached)
     if missing and not errors and not args.only:
         lines.append(f"HARNESS-ERROR property={pid} vacuity: outcome classes never reached: {missing}")
